@@ -28,6 +28,10 @@ pub enum SquareKind {
     Dummy,
     /// namespace runs in namespace order, tail padding at the end
     Structured(Vec<Run>),
+    /// low-entropy square: one user namespace, every cell is one of `pool` (2..=4) distinct shares
+    /// (a namespace-padding share and one-share blobs), chosen per cell by `picks` (cycled). Produces
+    /// rows/columns with byte-identical shares at arbitrary positions (equal ends, constant runs, ...).
+    Pool { pool: u8, picks: Vec<u8> },
 }
 
 #[derive(Clone, Debug, Serialize, Deserialize, PartialEq)]
@@ -87,6 +91,24 @@ pub fn build_ods(spec: &SquareSpec) -> (Vec<Vec<u8>>, Vec<Namespace>) {
                 s[NS + 1..NS + 5].copy_from_slice(&(refs::FIRST_CAP_V0 as u32).to_be_bytes());
                 rng.fill(&mut s[NS + 5..]);
                 out.push(s);
+            }
+        }
+        SquareKind::Pool { pool, picks } => {
+            let ns = user_ns((rng.next_u64() % 60000) as u16 + 1);
+            namespaces.push(ns);
+            let n = (*pool).clamp(2, 4) as usize;
+            let mut shares: Vec<Vec<u8>> = vec![refs::padding_share(&ns_bytes(&ns)).to_vec()];
+            while shares.len() < n {
+                let mut s = vec![0u8; SHARE];
+                s[..NS].copy_from_slice(ns.as_bytes());
+                s[NS] = 1;
+                s[NS + 1..NS + 5].copy_from_slice(&(refs::FIRST_CAP_V0 as u32).to_be_bytes());
+                rng.fill(&mut s[NS + 5..]);
+                shares.push(s);
+            }
+            for i in 0..total {
+                let p = if picks.is_empty() { 0 } else { picks[i % picks.len()] as usize % n };
+                out.push(shares[p].clone());
             }
         }
         SquareKind::Structured(runs) => {
@@ -186,8 +208,9 @@ pub fn run_strategy() -> impl Strategy<Value = Run> {
 /// squares with ODS width 2^lo ..= 2^hi
 pub fn square_strategy(lo: u8, hi: u8) -> impl Strategy<Value = SquareSpec> {
     (any::<u64>(), lo..=hi, prop_oneof![
-        1 => Just(SquareKind::Dummy),
-        3 => prop::collection::vec(run_strategy(), 0..14).prop_map(SquareKind::Structured),
+        2 => Just(SquareKind::Dummy),
+        6 => prop::collection::vec(run_strategy(), 0..14).prop_map(SquareKind::Structured),
+        1 => (2u8..=4, prop::collection::vec(0u8..4, 1..40)).prop_map(|(pool, picks)| SquareKind::Pool { pool, picks }),
     ])
         .prop_map(|(seed, ods_log2, kind)| SquareSpec { seed, ods_log2, kind })
 }
